@@ -19,7 +19,11 @@ RULE = ("a case is one history `N K ; op ; ...` over K live Bitset<N> registers;
         "position, find, find_map, any, all, try_fold (each followed by count() of what is left), reduce, cmp / partial_cmp / eq / ne / lt / le / gt / ge "
         "against the same iterator one step further, step_by, take, skip_while, chain, zip, enumerate, Vec::extend, partition, is_sorted. Field x= of "
         "every observation: BitsIter::new on the raw words, to_string, {:#?}, Debug inside Option, clone, clone_from into a fresh and into a used "
-        "destination, Default, & | ^ with the SAME object on both sides, &= |= ^= with an equal right-hand side, !!b, count vs iter. Ops also include "
+        "destination, Default, & | ^ with the SAME object on both sides, &= |= ^= with an equal right-hand side, !!b, count vs iter; (wave 5) nth / by_ref().nth / skip / step_by / take / skip(1).step_by with usize arguments 2^32, 2^32+1, "
+        "2^32+rem-1, 2^32+rem, 5*2^32+2, 2^40, 2^63, usize::MAX on an iterator advanced by 0, 1, l/2, l calls of next (more than 64 members: 2^32, 2^32+1, usize::MAX "
+        "after 0 and l/2 calls); Display / Debug / {:#?} written into a fmt::Write sink that accepts 0, 1, 32N, 64N-1 bytes and then fails (must be Err, accepted bytes a "
+        "prefix of the rendering) and 64N bytes (must be Ok and complete), followed by a normal rendering of the same bitset, of its complement, of a fresh Bitset<N>, "
+        "Bitset<1>, Bitset<3> on the same thread (N >= 10: one sink size and mode per observation, rotating with the number of members). Ops also include "
         "clone_from into a live register, Default::default, the assigning operators on the live right-hand register. "
         "Streams: (A) every pool set x every word-boundary position x set/remove/flip; (B) ordered pairs of the 40 structured "
         "pool sets per N through &,|,^ and &=,|=,^= (quick: a sub-grid rotating with the seed); (C) !, !!, clear, self-assigning ops, the same "
@@ -47,7 +51,7 @@ ASSUMPTIONS = [
     "observation instead of list indexing per position); they are proved equal to runCase / specRunCase for every capacity, register count and history "
     "(theorems fast_path_eq, observeRegFast_eq, history_observed_fast) - no csimp / implemented_by is involved",
     "the x= field (BitsIter::new on raw words, ToString, {:#?}, Debug inside Option, clone / clone_from / Default, same-object operators, "
-    "equal-operand assigning operators, !!) is checked by an independent brute-force oracle inside the harness (Vec<bool> mirror, results read back "
+    "equal-operand assigning operators, !!, (wave 5) provided iterator methods with arguments >= 2^32 and renderings into failing sinks followed by normal renderings) is checked by an independent brute-force oracle inside the harness (Vec<bool> mirror, results read back "
     "through test on every index); the model prints the constant x=ok. `default d` and `clonefrom d s` are read by the driver as the model's new / clone",
 ]
 TRUSTED_EXTRA = ["harness watchdog: a case that burns 2 s of CPU time without returning is reported as `hang` (a violation)"]
